@@ -67,6 +67,12 @@ func Harness_C10_defaults() {
 	c := hDefCols[vr.Param("COL", 0)]
 	opts := ParseStaticOptions{InheritWheelchairBoarding: vr.Bool("inherit")}
 	files := hC10Base()
+	if c.file != "routes.txt" {
+		// "nothing else": the routes carry explicit non-default continuous pickup / drop-off values, which no
+		// stop time or trip inherits
+		files["routes.txt"] = vr.File{Name: "routes.txt", Header: []string{"route_id", "agency_id", "route_type", "continuous_pickup", "continuous_drop_off"},
+			Rows: [][]string{{"r1", "ag", "1", "0", "2"}, {"r2", "ag", "3", "2", "3"}}}
+	}
 	absent := hParse(files, opts)
 	base := files[c.file]
 	files[c.file] = hWithColumn(base, c.col, []string{"", ""})
